@@ -17,11 +17,15 @@ func c06(r *core.Run) {
 		"(member access, super type, cast target, wanted borrow type) is the receiver / first operand and the *possessed* side (the reference's authorization, the sub type) the argument, " +
 		"as data-flow origins (parameter index, field path, asserted type, callee) pinned from the reviewed tree — a swapped comparison lets an upcast escalate; the run-time check delegates to the checker's function; " +
 		"(R2) IntersectAccess returns only: unauthorized, the conjunction built from the key-set intersection of both operands, or one operand under a superset test by the other; " +
+		"(R3) for each pair (kind of the required set, kind of the possessed set) EntitlementSetAccess.PermitsAccess returns the quantifier combination that set semantics require (path summaries with resolved function values); " +
+		"(R5) intersectReferenceAuthorizationsInType rebuilds containers only from recursively narrowed parts; " +
 		"(R4) EntitlementMapAccess.Image keeps the set kind of its input, admits an output only under relation.Input.Equal(entitlement) (identity only under IncludesIdentity) and keeps the unrepresentable-disjunction guard."
-	r.NotDecided = "the algebra on all run-time sets (that the decision functions, in particular the quantifiers inside EntitlementSetAccess.PermitsAccess, are right for every pair of sets and every mapping); nested-access narrowing in the interpreter beyond the comparison direction."
+	r.NotDecided = "the algebra on all run-time sets (that the decision functions are right for every pair of sets and every mapping beyond the structural clauses R2–R5); nested-access narrowing in the interpreter beyond the comparison direction."
 	c06Direction(r)
 	c06Intersect(r)
+	c06Quantifiers(r)
 	c06Image(r)
+	c06Rebuild(r)
 }
 
 // c06Direction: R1.
@@ -322,6 +326,196 @@ func c06Image(r *core.Run) {
 		})
 		r.Check(guard, rule, "sema.(EntitlementMapAccess).Image: unrepresentable disjunction", fn.Pos(), "a disjunction whose member maps to more than one output is an error",
 			"the guard that rejects a disjunctive input whose member has a multi-element image is gone or no longer depends on the set kind and the image size: a disjunction of conjunctions is flattened, granting more than any holder has")
+	}
+	r.Floor(rule, 5)
+}
+
+// c06Quantifiers: R3 — EntitlementSetAccess.PermitsAccess quantifies as the set semantics require. For every pair
+// (kind of the required set = receiver, kind of the possessed set = argument) the value returned on the corresponding path is
+// described structurally (which set is iterated with which quantifier, and what is asked of each element) and compared with
+// the table that follows from the property statement: a conjunction requires every listed entitlement, a disjunction at
+// least one; a possessed disjunction guarantees only "one of", so every option must do.
+func c06Quantifiers(r *core.Run) {
+	const rule = "R3.quantifiers"
+	w := r.W
+	fn := mustFn(r, rule, "sema", "EntitlementSetAccess", "PermitsAccess")
+	if fn == nil || len(fn.Params) < 2 {
+		return
+	}
+	// names of the set kinds by constant value
+	kindName := map[string]string{}
+	if p := w.Pkg("sema"); p != nil {
+		for _, n := range []string{"Conjunction", "Disjunction"} {
+			if c, ok := p.Types.Scope().Lookup(n).(*types.Const); ok {
+				kindName[c.Val().ExactString()] = n
+			}
+		}
+	}
+	role := func(v ssa.Value) string {
+		l := core.OriginLeaves(v)
+		switch {
+		case strings.Contains(l, "param#0:") && !strings.Contains(l, "param#1:"):
+			return "required"
+		case strings.Contains(l, "param#1:") && !strings.Contains(l, "param#0:"):
+			return "possessed"
+		}
+		return "?"
+	}
+	var describe func(v ssa.Value, resolve func(ssa.Value) ssa.Value, d int) string
+	closureDesc := func(mc *ssa.MakeClosure, d int) string {
+		lit, _ := mc.Fn.(*ssa.Function)
+		if lit == nil {
+			return "?"
+		}
+		if strings.HasSuffix(lit.Name(), "$bound") {
+			recv := "?"
+			if len(mc.Bindings) > 0 {
+				recv = role(mc.Bindings[0])
+			}
+			return strings.TrimSuffix(lit.Name(), "$bound") + "@" + recv
+		}
+		// a function literal: what it returns
+		var parts []string
+		for _, ret := range core.Returns(lit) {
+			if len(ret.Results) == 1 {
+				parts = append(parts, describe(ret.Results[0], func(x ssa.Value) ssa.Value { return x }, d+1))
+			}
+		}
+		sort.Strings(parts)
+		return "λ{" + strings.Join(uniq(parts), "|") + "}"
+	}
+	describe = func(v ssa.Value, resolve func(ssa.Value) ssa.Value, d int) string {
+		if d > 6 {
+			return "…"
+		}
+		v = resolve(v)
+		switch x := v.(type) {
+		case *ssa.Const:
+			if x.Value != nil {
+				return x.Value.ExactString()
+			}
+		case *ssa.BinOp:
+			return x.Op.String()
+		case *ssa.MakeClosure:
+			return closureDesc(x, d)
+		case *ssa.Call:
+			var head string
+			fv := resolve(x.Call.Value)
+			switch f := fv.(type) {
+			case *ssa.MakeClosure:
+				head = closureDesc(f, d)
+			default:
+				name := "?"
+				if x.Call.IsInvoke() {
+					name = x.Call.Method.Name()
+				} else if o := core.Callee(x); o != nil {
+					name = o.Name()
+				}
+				recv := "?"
+				if x.Call.IsInvoke() {
+					recv = role(x.Call.Value)
+				} else if len(x.Call.Args) > 0 {
+					recv = role(x.Call.Args[0])
+				}
+				head = name + "@" + recv
+			}
+			var args []string
+			for i, a := range x.Call.Args {
+				if i == 0 && !x.Call.IsInvoke() {
+					if _, isMC := fv.(*ssa.MakeClosure); !isMC {
+						continue // the receiver of a static method call
+					}
+				}
+				ra := resolve(a)
+				if _, ok := ra.(*ssa.MakeClosure); ok {
+					args = append(args, describe(ra, resolve, d+1))
+				}
+			}
+			return head + "(" + strings.Join(args, ",") + ")"
+		}
+		return "?" + core.OriginLeaves(v)
+	}
+	eventOf := func(in ssa.Instruction, resolve func(ssa.Value) ssa.Value) string {
+		if ret, ok := in.(*ssa.Return); ok && len(ret.Results) == 1 {
+			return "return " + describe(ret.Results[0], resolve, 0)
+		}
+		return ""
+	}
+	paths, complete := core.PathSummariesR(fn, 256, eventOf)
+	if !complete || len(paths) == 0 {
+		r.Undecided(rule, core.SSAKey(fn), "paths cannot be enumerated")
+		return
+	}
+	want := map[[2]string]string{
+		{"Conjunction", "Conjunction"}: "return ForAllKeys@required(Contains@possessed)",
+		{"Disjunction", "Conjunction"}: "return ForAnyKey@required(Contains@possessed)",
+		{"Disjunction", "Disjunction"}: "return ForAllKeys@possessed(Contains@required)",
+		{"Conjunction", "Disjunction"}: "return ForAllKeys@possessed(λ{ForAllKeys@required(λ{==})})",
+	}
+	got := map[[2]string]map[string]bool{}
+	for _, p := range paths {
+		parts := strings.SplitN(p, " ⇒ ", 2)
+		if len(parts) != 2 {
+			continue
+		}
+		req, poss := "", ""
+		for _, c := range strings.Split(parts[0], " ∧ ") {
+			if !strings.HasPrefix(c, "+==(") || !strings.Contains(c, ".SetKind") {
+				continue
+			}
+			for val, nm := range kindName {
+				if strings.Contains(c, "{const:"+val+"}") {
+					if strings.Contains(c, "param#0:") {
+						req = nm
+					} else if strings.Contains(c, "param#1:") {
+						poss = nm
+					}
+				}
+			}
+		}
+		if req == "" || poss == "" {
+			continue
+		}
+		k := [2]string{req, poss}
+		if got[k] == nil {
+			got[k] = map[string]bool{}
+		}
+		got[k][parts[1]] = true
+	}
+	for _, k := range [][2]string{{"Conjunction", "Conjunction"}, {"Disjunction", "Conjunction"}, {"Disjunction", "Disjunction"}, {"Conjunction", "Disjunction"}} {
+		outs := sortedKeys(got[k])
+		key := "sema.(EntitlementSetAccess).PermitsAccess: required " + k[0] + ", possessed " + k[1]
+		ok := len(outs) == 1 && outs[0] == want[k]
+		r.Check(ok, rule, key, fn.Pos(), want[k], "the decision for this pair of set kinds is "+strings.Join(outs, " / ")+" instead of "+want[k]+": the requirement is no longer checked per set semantics (a conjunction requires every listed entitlement, a disjunction at least one; a possessed disjunction guarantees only one of its options)")
+	}
+	r.Floor(rule, 4)
+}
+
+// c06Rebuild: R5 — nested-access narrowing rebuilds containers from the narrowed parts: in intersectReferenceAuthorizationsInType
+// every type-valued argument of a type constructor comes out of the recursive call (a part taken unchanged from the original
+// type keeps the authorization that the outer reference does not grant).
+func c06Rebuild(r *core.Run) {
+	const rule = "R5.rebuild"
+	fn := mustFn(r, rule, "sema", "", "intersectReferenceAuthorizationsInType")
+	if fn == nil {
+		return
+	}
+	n := 0
+	for _, c := range core.Calls(fn, false) {
+		o := core.Callee(c)
+		if o == nil || !strings.HasPrefix(o.Name(), "New") || !strings.HasSuffix(o.Name(), "Type") || o.Pkg() == nil || o.Pkg().Path() != mod+"/sema" {
+			continue
+		}
+		for i, a := range c.Common().Args {
+			nt, ok := a.Type().(*types.Named)
+			if !ok || nt.Obj().Name() != "Type" {
+				continue
+			}
+			n++
+			lv := core.OriginLeavesVia(a)
+			r.Check(strings.Contains(lv, "via:"+fn.Name()), rule, "sema."+fn.Name()+" -> "+o.Name()+" argument #"+itoa(i), posOf(c), "the part is the result of the recursive narrowing",
+				"a container is rebuilt with a part taken unchanged from the original type ("+lv+"): references inside keep an authorization the outer reference does not grant")
+		}
 	}
 	r.Floor(rule, 5)
 }
